@@ -157,6 +157,11 @@ fn parse(text: &str) -> Parse {
                 }
             }
 
+            // Comments at the very end of a paragraph are not followed by an entry
+            if matches!(self.current(), None | Some(NEWLINE)) {
+                return;
+            }
+
             self.builder.start_node(ENTRY.into());
 
             // First, parse the key and colon
